@@ -46,6 +46,7 @@ KINDS: Dict[str, dict] = {
     "pot": dict(decl='pot = Potentiometer("A{a0}")', pins=[15], alt=[16], use=["mon.write(pot.read())"], hoist=True, outputs=[]),
     "ultra": dict(decl="us = Ultrasonic({p0}, {p1})", pins=[22, 23], alt=[33, 34], use=["mon.write(us.measure_distance())"], hoist=True, outputs=[]),
     "lcd": dict(decl="lcd = LCD(rs=40, en=41, d4=42, d5=43, d6=44, d7=45, backlight_pin={p0})", pins=[46], alt=[47], use=['lcd.line(0, "hi")', "lcd.brightness(100)"], hoist=False, outputs=[0]),
+    "lcdanim": dict(decl="disp = LCD(i2c_addr=38, cols=8, rows=2)", pins=[], alt=[], use=['disp.line(1, "k")'], hoist=False, outputs=[], extra_setup=['disp.animate("scroll", 0, "abcdefghijkl", speed_ms=0, loop=True)']),
     "lcdi2c": dict(decl="panel = LCD(i2c_addr=39, cols=16, rows=2)", pins=[], alt=[], use=['panel.line(1, "yo")'], hoist=False, outputs=[]),
 }
 
@@ -75,6 +76,7 @@ def build(kinds: Sequence[str], decl_pos: Sequence[str], use_pos: Sequence[str],
             return None  # not yet declared when setup runs (NameError in Python)
         if dpos in ("setup", "both"):
             setup.append(_decl(kind))
+            setup.extend(spec.get("extra_setup", []))
         if dpos in ("loop", "both"):
             loop_decls.append(_decl(kind, alt=(dpos == "both")))
         uses = spec["use"]
@@ -273,6 +275,27 @@ def housekeeping_monitor(case, dr) -> Optional[str]:
     return None
 
 
+def tick_monitor(case, dr) -> Optional[str]:
+    """LCD animation ticks: exactly one per pass, before any user statement of that pass."""
+    if "lcdanim" not in case.get("kinds", []):
+        return None
+    by_pass: Dict[int, List] = {}
+    for ev in dr.events:
+        if ev.phase >= 0:
+            by_pass.setdefault(ev.phase, []).append(ev)
+    for p, evs in by_pass.items():
+        ticks = [i for i, ev in enumerate(evs) if ev.kind == "millis"]
+        n_us = sum(1 for ev in evs if ev.kind == "pulseIn")
+        if "ultra" in case.get("kinds", []):
+            continue  # the ultrasonic helper also reads millis()
+        if len(ticks) != 1:
+            return f"pass {p}: the animation was ticked {len(ticks)} times (expected exactly once)"
+        user = [i for i, ev in enumerate(evs) if ev.kind in ("serial", "delay", "aw", "dw", "tone", "servo_write", "ar")]
+        if user and ticks[0] > user[0]:
+            return f"pass {p}: the animation tick ran after a user statement"
+    return None
+
+
 def judge(case, tr, dev_runs, host_runs):
     if case.get("must_reject"):
         if tr.status == "reject":
@@ -291,7 +314,7 @@ def judge(case, tr, dev_runs, host_runs):
     for dr in dev_runs:
         if not dr.ok:
             return "violation", f"firmware did not run cleanly: {dr.faults[:2]} exit={dr.exit_code}"
-        err = config_monitor(case, dr) or housekeeping_monitor(case, dr)
+        err = config_monitor(case, dr) or housekeeping_monitor(case, dr) or tick_monitor(case, dr)
         if err:
             return "violation", "monitor: " + err
     hr = host_runs[0]
@@ -301,7 +324,7 @@ def judge(case, tr, dev_runs, host_runs):
     # ultrasonic retry/fallback and LCD cells have their own properties (C15/C17); compare what C05 is about
     host_obs = observe.reduce_host(hr.events)
     dev_obs = observe.reduce_device(dev_runs[0])
-    if "ultra" in kinds:
+    if "ultra" in kinds or "lcdanim" in kinds:
         return "match_monitors_only", ""
     diff = observe.compare(host_obs, dev_obs, check_lcd=True)
     if diff:
